@@ -113,6 +113,19 @@ class _NP:
     def __getattr__(self, name):
         return getattr(_np, name)
 
+    @staticmethod
+    def array_equal(a, b, *args, **k):
+        """one fork on the conjunction of the element-wise equalities (numpy would compare element by element, which
+        forks once per element)"""
+        if not _has_sym(a, b):
+            return _np.array_equal(a, b, *args, **k)
+        from .sym import S, band, eq
+
+        x, y = _np.asarray(a, dtype=object), _np.asarray(b, dtype=object)
+        if x.shape != y.shape:
+            return False
+        return bool(band(*[eq(S(p), S(q)) for p, q in zip(x.ravel(), y.ravel())]))
+
     # ---- array creation: float targets become object arrays
     @staticmethod
     def zeros(shape, dtype=None, **k):
